@@ -8,17 +8,30 @@ package main
 // (all keys, subset, split over the three maps, re-encoded keys, unknown key, undecodable key, undecodable value).
 // Observables: which AddKey fails; the ids parameter; LocateOriginalKey's result (pointer identity for pointer keys); error / no
 // error of the unmarshalling and the keys (identity) + payload tags of the three maps.
+//
+// BULK entry points.  Every key list is also handed, WHOLE, to every function that builds a key set from a caller's collection:
+// batchkeyset.AddAllKeys on a set of each constructor (NewBatchKeySet and the typed NewPrimitive/Simple/Complex/BytesKeySet), in one
+// call and split over two; batchkeyset.AddAllMapKeys; and the client functions restli.BatchGet / BatchDelete (slice) and
+// BatchUpdate / BatchPartialUpdate (map) on a real *restli.Client whose transport counts the requests.  Expected of each: rejected -
+// with nothing sent - iff two keys of the list are key-equal, wherever the two stand; otherwise one request whose ids parameter names
+// every key once.  Lists with a duplicate pair at every pair of positions (first/middle/last, followed or not by further keys) are
+// generated for every key type (c16DupLists).
 
 import (
+	"context"
 	"encoding/json"
 	"fmt"
+	"io"
 	"math"
+	"net/http"
+	"net/url"
 	"os"
 	"reflect"
 	"sort"
 	"strings"
 
 	"github.com/PapaCharlie/go-restli/v2/fnv1a"
+	"github.com/PapaCharlie/go-restli/v2/restli"
 	"github.com/PapaCharlie/go-restli/v2/restli/batchkeyset"
 	"github.com/PapaCharlie/go-restli/v2/restlicodec"
 	"github.com/PapaCharlie/go-restli/v2/restlidata/generated/com/linkedin/restli/common"
@@ -35,6 +48,13 @@ type c16Key[K any] struct {
 	back  func(k K) *Val
 	hash  func(k K) uint32 // the hash the set uses (for the collision search); nil for primitive sets
 	ptr   bool
+	ctor  func() batchkeyset.BatchKeySet[K] // the typed constructor of the key kind (NewPrimitiveKeySet / NewSimpleKeySet / ...)
+	cname string
+}
+
+func (kt c16Key[K]) with(cname string, ctor func() batchkeyset.BatchKeySet[K]) c16Key[K] {
+	kt.cname, kt.ctor = cname, ctor
+	return kt
 }
 
 func c16Generated[K any](name string, kind int) c16Key[K] {
@@ -224,7 +244,19 @@ type c16Obs struct {
 	Mode    string       `json:"mode"`
 	Note    string       `json:"note,omitempty"`
 	MapAdd  string       `json:"mapAdd,omitempty"` // AddAllMapKeys over a map keyed by the (pointer) keys: "error" | "ok" | "" (not observed)
+	Bulk    []c16Bulk    `json:"bulk,omitempty"`   // the bulk entry points on the whole key list
 }
+
+// one bulk entry point driven with the caller's whole key list
+type c16Bulk struct {
+	Entry    string `json:"entry"`
+	Rejected bool   `json:"rejected"`       // an error (for the client functions: and no request reached the transport)
+	Sent     int    `json:"sent,omitempty"` // client functions: requests that reached the transport
+	NoModel  bool   `json:"noModel,omitempty"` // map entry points on value keys: the Go map merged keys that are ==, the list is not the map's key set
+}
+
+var c16BulkIds = map[string]int{"AddAllKeys": 0, "AddAllKeys-two-calls": 1, "AddAllKeys/typed": 2, "AddAllKeys-two-calls/typed": 3,
+	"BatchGet": 4, "BatchDelete": 5, "BatchUpdate": 6, "BatchPartialUpdate": 7}
 type c16Probe struct {
 	Key   *Val `json:"key"`
 	Found bool `json:"found"`
@@ -383,6 +415,251 @@ func c16SetPart[K any](kt c16Key[K], vals []*Val, probes []*Val, rep *hx.Report)
 		obs.Probes = append(obs.Probes, p)
 	}
 	return obs, set, origs, true
+}
+
+// two keys of the list are equal under key equality
+func c16HasDup[K any](kt c16Key[K], vals []*Val) bool {
+	for i := range vals {
+		for j := 0; j < i; j++ {
+			if kt.keyEq(vals[j], vals[i]) {
+				return true
+			}
+		}
+	}
+	return false
+}
+
+func c16WantIds[K any](keys []K) string {
+	var each []string
+	for _, k := range keys {
+		s, _ := c16EncodeKey(k, false)
+		each = append(each, s)
+	}
+	sort.Strings(each)
+	return "ids=List(" + strings.Join(each, ",") + ")"
+}
+
+// AddAllKeys with the WHOLE key list, on a set of every constructor, in one call and split over two calls: every key type
+func c16BulkPart[K any](kt c16Key[K], obs *c16Obs, rep *hx.Report) {
+	site := "v2/restli/batchkeyset/set.go:45 AddAllKeys"
+	dup := c16HasDup(kt, obs.Keys)
+	build := func() []K {
+		var ks []K
+		for _, v := range obs.Keys {
+			ks = append(ks, kt.build(v))
+		}
+		return ks
+	}
+	type ctor struct {
+		suffix string
+		mk     func() batchkeyset.BatchKeySet[K]
+	}
+	ctors := []ctor{{"", batchkeyset.NewBatchKeySet[K]}}
+	if kt.ctor != nil {
+		ctors = append(ctors, ctor{"/typed", kt.ctor})
+	}
+	for _, c := range ctors {
+		for _, split := range []bool{false, true} {
+			entry := "AddAllKeys" + c.suffix
+			keys := build()
+			set := c.mk()
+			var err error
+			if split {
+				entry = "AddAllKeys-two-calls" + c.suffix
+				h := (len(keys) + 1) / 2
+				if err = batchkeyset.AddAllKeys(set, keys[:h]...); err == nil {
+					err = batchkeyset.AddAllKeys(set, keys[h:]...)
+				}
+			} else {
+				err = batchkeyset.AddAllKeys(set, keys...)
+			}
+			obs.Bulk = append(obs.Bulk, c16Bulk{Entry: entry, Rejected: err != nil})
+			rep.Count(fmt.Sprintf("bulk:%s:rejected=%v", entry, err != nil))
+			ctorName := "NewBatchKeySet"
+			if c.suffix != "" {
+				ctorName = kt.cname
+			}
+			switch {
+			case dup && err == nil:
+				ids, _ := set.EncodeQueryParams()
+				rep.Fail("keyset:addall-duplicate-not-rejected", "AddAllKeys accepts a key list that holds two keys equal under key equality ("+entry+" on "+ctorName+")", site, obs.desc(-1), ids)
+			case !dup && err != nil:
+				rep.Fail("keyset:addall-distinct-keys-rejected", "AddAllKeys rejects a key list whose keys are pairwise different under key equality ("+entry+" on "+ctorName+")", site, obs.desc(-1), err.Error())
+			case err == nil:
+				if ids, e2 := set.EncodeQueryParams(); e2 == nil && ids != c16WantIds(keys) {
+					rep.Fail("ids:not-each-key-once-sorted", "after AddAllKeys the ids parameter is not the sorted list of the individually encoded keys, each once", site, obs.desc(-1), map[string]string{"got": ids, "want": c16WantIds(keys)})
+				}
+			}
+		}
+	}
+}
+
+// a transport that counts and answers an empty batch response
+type c16Transport struct {
+	n     int
+	query string
+}
+
+func (t *c16Transport) RoundTrip(req *http.Request) (*http.Response, error) {
+	t.n++
+	t.query = req.URL.RawQuery
+	h := http.Header{}
+	h.Set(restli.ProtocolVersionHeader, restli.ProtocolVersion)
+	h.Set("Content-Type", "application/json")
+	return &http.Response{StatusCode: 200, Status: "200 OK", Proto: "HTTP/1.1", ProtoMajor: 1, ProtoMinor: 1, Header: h,
+		Body: io.NopCloser(strings.NewReader(`{"results":{}}`)), Request: req}, nil
+}
+
+var c16BaseURL = &url.URL{Scheme: "http", Host: "c16.invalid", Path: "/ctx"}
+
+// the client functions that build a key set from the caller's collection (collection_batch_methods.go): BatchGet / BatchDelete take
+// a slice (AddAllKeys), BatchUpdate / BatchPartialUpdate a map keyed by the keys (AddAllMapKeys).  A real *restli.Client on a counting
+// transport: a list with two key-equal keys is rejected and NOTHING is sent; otherwise exactly one request goes out, its ids
+// parameter naming every key once.  encodable: the set part could encode every key (otherwise a refusal proves nothing).
+func c16ClientPart[K comparable](kt c16Key[K], obs *c16Obs, encodable bool, rep *hx.Report) {
+	site := "v2/restli/collection_batch_methods.go:124-226"
+	dupList := c16HasDup(kt, obs.Keys)
+	if !dupList && !encodable {
+		return
+	}
+	rp := restli.ResourcePathString("/things")
+	for _, entry := range []string{"BatchGet", "BatchDelete", "BatchUpdate", "BatchPartialUpdate"} {
+		var keys []K
+		for _, v := range obs.Keys {
+			keys = append(keys, kt.build(v))
+		}
+		tr := &c16Transport{}
+		c := &restli.Client{Client: &http.Client{Transport: tr}, HostnameResolver: &restli.SimpleHostnameResolver{Hostname: c16BaseURL}}
+		var err error
+		var pnc interface{}
+		dup, sentKeys, noModel := dupList, keys, false
+		func() {
+			defer func() { pnc = recover() }()
+			switch entry {
+			case "BatchGet":
+				_, err = restli.BatchGet[K, *fam.Inner](c, context.Background(), rp, keys, nil)
+			case "BatchDelete":
+				_, err = restli.BatchDelete[K](c, context.Background(), rp, keys, nil)
+			default:
+				entities := map[K]*fam.Inner{}
+				for _, k := range keys {
+					entities[k] = &fam.Inner{}
+				}
+				// the caller's collection is the map: its keys (value keys that are == were merged by the Go map itself)
+				var mapVals []*Val
+				sentKeys = nil
+				for k := range entities {
+					mapVals = append(mapVals, kt.back(k))
+					sentKeys = append(sentKeys, k)
+				}
+				noModel = len(entities) != len(keys)
+				dup = c16HasDup(kt, mapVals)
+				if entry == "BatchUpdate" {
+					_, err = restli.BatchUpdate[K, *fam.Inner](c, context.Background(), rp, entities, nil, nil)
+				} else {
+					_, err = restli.BatchPartialUpdate[K, *fam.Inner](c, context.Background(), rp, entities, nil, nil)
+				}
+			}
+		}()
+		if pnc != nil {
+			rep.Fail("client:panic:"+entry, entry+" panicked", site, obs.desc(-1), fmt.Sprint(pnc))
+			continue
+		}
+		rejected := err != nil && tr.n == 0
+		obs.Bulk = append(obs.Bulk, c16Bulk{Entry: entry, Rejected: rejected, Sent: tr.n, NoModel: noModel})
+		rep.Count(fmt.Sprintf("bulk:%s:rejected=%v", entry, rejected))
+		switch {
+		case dup && tr.n > 0:
+			what := entry + " sends a request for a key collection that holds two keys equal under key equality instead of rejecting it before anything is sent"
+			if err != nil {
+				what += " (it returns an error afterwards)"
+			}
+			rep.Fail("client:duplicate-not-rejected:"+entry, what, site, obs.desc(-1), map[string]interface{}{"requests": tr.n, "query": tr.query})
+		case dup && err == nil:
+			rep.Fail("client:duplicate-not-rejected:"+entry, entry+" returns no error for a key collection that holds two keys equal under key equality", site, obs.desc(-1), nil)
+		case !dup && tr.n == 0:
+			rep.Fail("client:distinct-keys-rejected:"+entry, entry+" sends nothing for a key collection whose keys are pairwise different under key equality", site, obs.desc(-1), fmt.Sprint(err))
+		case !dup && tr.n > 1:
+			rep.Fail("client:request-repeated:"+entry, entry+" sends more than one request", site, obs.desc(-1), tr.n)
+		case !dup:
+			if want := c16WantIds(sentKeys); tr.query != want {
+				rep.Fail("client:ids-not-each-key-once-sorted:"+entry, "the ids parameter of the request "+entry+" sends is not the sorted list of the individually encoded keys, each once", site, obs.desc(-1), map[string]string{"got": tr.query, "want": want})
+			}
+			if err != nil {
+				rep.Count("bulk:" + entry + ":error-after-the-request")
+			}
+		}
+	}
+}
+
+// key lists with a duplicate pair at EVERY pair of positions: n distinct keys (n = 1..3) and a separately built duplicate of one of
+// them (complex keys: other params; float zeros: the other sign), the pair standing at positions i < j of the list of n+1 keys -
+// first/middle/last, followed or not by further keys; plus two pairs and a triple.
+func c16DupLists[K any](kt c16Key[K], r *hx.Rand) [][]*Val {
+	distinct := func(n int) []*Val {
+		var out []*Val
+		for tries := 0; len(out) < n && tries < 400; tries++ {
+			v := c16Gen(kt, r)
+			v.c10FixNaN()
+			if v.hasNaN() {
+				continue
+			}
+			ok := true
+			for _, w := range out {
+				if kt.keyEq(w, v) {
+					ok = false
+				}
+			}
+			if ok {
+				out = append(out, v)
+			}
+		}
+		return out
+	}
+	dupOf := func(v *Val) *Val {
+		d := v.c10Clone()
+		if kt.kind == 1 {
+			d.Fields[0] = &Val{K: "rec", Fields: []*Val{{K: "int", Z: int64(r.Intn(1000))}, nil}}
+			if r.Chance(30) {
+				d.Fields[0] = nil
+			}
+		}
+		if d.K == "double" && math.Float64frombits(d.Bits) == 0 {
+			d.Bits ^= 1 << 63
+		}
+		if d.K == "float" && math.Float32frombits(uint32(d.Bits)) == 0 {
+			d.Bits ^= 1 << 31
+		}
+		return d
+	}
+	var lists [][]*Val
+	for n := 1; n <= 3; n++ {
+		for i := 0; i <= n; i++ {
+			for j := i + 1; j <= n; j++ {
+				ks := distinct(n)
+				if len(ks) < n {
+					continue
+				}
+				l := make([]*Val, n+1)
+				l[i], l[j] = ks[0], dupOf(ks[0])
+				o := 1
+				for p := range l {
+					if l[p] == nil {
+						l[p] = ks[o]
+						o++
+					}
+				}
+				lists = append(lists, l)
+			}
+		}
+	}
+	if ks := distinct(3); len(ks) == 3 {
+		lists = append(lists, []*Val{ks[0], ks[1], dupOf(ks[0]), dupOf(ks[1]), ks[2]})
+	}
+	if ks := distinct(2); len(ks) == 2 {
+		lists = append(lists, []*Val{ks[0], dupOf(ks[0]), dupOf(ks[0]), ks[1]})
+	}
+	return lists
 }
 
 func (o *c16Obs) desc(i int) map[string]interface{} {
@@ -786,8 +1063,14 @@ func c16Coq[K any](kt c16Key[K], o *c16Obs) string {
 	case "error":
 		mapAdd = "(Some true)"
 	}
-	return fmt.Sprintf("{| c_kind := %d; c_hty := %s; c_ty := %s; c_floats := %s; c_parse := %s;\n c_keys := %s; c_add := %s; c_mapadd := %s; c_ids := %s;\n c_probes := [%s];\n c_replies := [%s] |}",
-		kt.kind, c10Ty(kt.t), c16CodecTy(kt.name, kt.t), coqFloats(fl), coqParseTable(texts), coqVals(o.Keys), add, mapAdd, hx.CoqBytes(o.Ids),
+	var bulk []string
+	for _, b := range o.Bulk {
+		if !b.NoModel {
+			bulk = append(bulk, fmt.Sprintf("(%d, %s)", c16BulkIds[b.Entry], hx.CoqBool(b.Rejected)))
+		}
+	}
+	return fmt.Sprintf("{| c_kind := %d; c_hty := %s; c_ty := %s; c_floats := %s; c_parse := %s;\n c_keys := %s; c_add := %s; c_mapadd := %s; c_bulk := [%s]; c_ids := %s;\n c_probes := [%s];\n c_replies := [%s] |}",
+		kt.kind, c10Ty(kt.t), c16CodecTy(kt.name, kt.t), coqFloats(fl), coqParseTable(texts), coqVals(o.Keys), add, mapAdd, strings.Join(bulk, "; "), hx.CoqBytes(o.Ids),
 		strings.Join(probes, ";"), strings.Join(replies, ";\n  "))
 }
 
@@ -928,19 +1211,30 @@ func c16Scenario[K any](kt c16Key[K], r *hx.Rand, coll [][2]*Val, special [][]*V
 }
 
 func c16RunSet[K any](kt c16Key[K], r *hx.Rand, rep *hx.Report, sh *hx.Shards, n int, special [][]*Val,
-	replyPart func(obs *c16Obs, set batchkeyset.BatchKeySet[K], origs []K, replies []c16Reply), mapPart func(obs *c16Obs)) {
+	replyPart func(obs *c16Obs, set batchkeyset.BatchKeySet[K], origs []K, replies []c16Reply), mapPart func(obs *c16Obs, encodable bool)) {
 	coll := c16Collisions(kt, r, 250000, 4)
 	rep.CountN("colliding-pairs:"+kt.name, len(coll))
 	lone := 2 * len(coll)
 	if c16Replaying {
 		coll, lone = nil, 0
 	}
+	handWritten := len(special)
+	if !c16Replaying {
+		// a duplicate pair at every pair of positions of the list
+		special = append(append([][]*Val{}, special...), c16DupLists(kt, r)...)
+	}
 	for i := 0; i < n+len(special)+lone; i++ {
 		vals, probes, extra, note := c16Scenario(kt, r, coll, special, i)
+		if i >= handWritten && i < len(special) {
+			note = "dup-positions"
+			rep.Count("dup-position-lists")
+		}
 		obs, set, origs, ok := c16SetPart(kt, vals, probes, rep)
 		obs.Note = note
+		// the bulk entry points on the whole list
+		c16BulkPart(kt, &obs, rep)
 		if mapPart != nil {
-			mapPart(&obs)
+			mapPart(&obs, ok)
 		}
 		if ok && replyPart != nil {
 			replyPart(&obs, set, origs, c16Replies(kt, r, vals, extra))
@@ -957,7 +1251,7 @@ func c16RunSet[K any](kt c16Key[K], r *hx.Rand, rep *hx.Report, sh *hx.Shards, n
 		if obs.MapAdd != "" {
 			rep.Count("addallmapkeys=" + obs.MapAdd)
 		}
-		nt := strings.Contains(note, "colliding") || strings.Contains(note, "duplicate") || note == "special"
+		nt := strings.Contains(note, "colliding") || strings.Contains(note, "duplicate") || note == "special" || note == "dup-positions"
 		d := obs.describe()
 		rep.Distinct(kt.name+fmt.Sprint(i)+valKey(&Val{K: "arr", Items: d.Keys}), nt)
 		if nt && kt.kind != 2 {
@@ -970,7 +1264,10 @@ func c16RunSet[K any](kt c16Key[K], r *hx.Rand, rep *hx.Report, sh *hx.Shards, n
 func c16Run[K comparable](kt c16Key[K], r *hx.Rand, rep *hx.Report, sh *hx.Shards, n int, special [][]*Val) {
 	c16RunSet(kt, r, rep, sh, n, special, func(obs *c16Obs, set batchkeyset.BatchKeySet[K], origs []K, replies []c16Reply) {
 		c16ReplyPart(kt, obs, set, origs, replies, rep)
-	}, func(obs *c16Obs) { c16MapPart(kt, obs, rep) })
+	}, func(obs *c16Obs, encodable bool) {
+		c16MapPart(kt, obs, rep)
+		c16ClientPart(kt, obs, encodable, rep)
+	})
 }
 
 var c16Replaying bool
@@ -1060,7 +1357,11 @@ func runC16(cfg *hx.Config) {
 		"CK (complex key, with / without / differing params), bytes (set API only)} x key lists of 0-7 keys (seeded; strings from a pool of ROR2/URL-escaping-relevant texts; " +
 		"pairs of keys whose REAL hashes collide, found by a birthday search at start-up; injected duplicates, for complex keys equal up to params; float specials) x " +
 		"probes (separately built copies with other params, colliding strangers, random keys) x replies {all in results; all three maps; subset split and permuted over the maps with an unknown field; " +
-		"no results; one unknown key; an undecodable key; an undecodable value; the same complex key twice}. non-trivial = the key list holds colliding or duplicate keys or is a special list")
+		"no results; one unknown key; an undecodable key; an undecodable value; the same complex key twice}. " +
+		"every key list is also handed WHOLE to every bulk entry point: AddAllKeys (one call / two calls) on NewBatchKeySet and on the typed constructor, AddAllMapKeys, " +
+		"and the client functions BatchGet / BatchDelete / BatchUpdate / BatchPartialUpdate on a real client with a counting transport (rejected before anything is sent iff two keys are key-equal; " +
+		"else one request naming every key once); per key type 12 lists with a duplicate pair at every pair of positions of lists of 2-4 keys (first/middle/last, followed or not by further keys), two pairs, a triple. " +
+		"non-trivial = the key list holds colliding or duplicate keys or is a special list")
 	hdr := c16Header()
 	hdr = strings.Replace(hdr, "KeySetCorr.mismatches fam_henv", "KeySetCorr.mismatches fam_henv ck_env", 1)
 	hdr = strings.Replace(hdr, "KeySetCorr.model_out fam_henv", "KeySetCorr.model_out fam_henv ck_env", 1)
@@ -1099,19 +1400,19 @@ func runC16(cfg *hx.Config) {
 		special = c16ReplaySpecial(cfg.Replay)
 		c16Replaying = true
 	}
-	c16Run(c16Prim[int32]("int32"), r, rep, sh, n, special["int32"])
-	c16Run(c16Prim[int64]("int64"), r, rep, sh, n, special["int64"])
-	c16Run(c16Prim[float32]("float32"), r, rep, sh, n, special["float32"])
-	c16Run(c16Prim[float64]("float64"), r, rep, sh, n, special["float64"])
-	c16Run(c16Prim[bool]("bool"), r, rep, sh, (n+1)/2, special["bool"])
-	c16Run(c16Prim[string]("string"), r, rep, sh, n, special["string"])
-	c16Run(c16Generated[fam.Tlong]("Tlong", 0), r, rep, sh, n, special["Tlong"])
-	c16Run(c16Generated[fam.Tstr]("Tstr", 0), r, rep, sh, n, special["Tstr"])
-	c16Run(c16Generated[fam.Color]("Color", 0), r, rep, sh, (n+1)/2, special["Color"])
-	c16Run(c16Generated[*fam.Fx4]("Fx4", 0), r, rep, sh, n, special["Fx4"])
-	c16Run(c16Generated[*fam.Inner]("Inner", 0), r, rep, sh, n, special["Inner"])
-	c16Run(c16Generated[*fam.CK]("CK", 1), r, rep, sh, 2*n, special["CK"])
-	c16RunSet(c16Prim[[]byte]("bytes"), r, rep, sh, n, special["bytes"], nil, nil)
+	c16Run(c16Prim[int32]("int32").with("NewPrimitiveKeySet", batchkeyset.NewPrimitiveKeySet[int32]), r, rep, sh, n, special["int32"])
+	c16Run(c16Prim[int64]("int64").with("NewPrimitiveKeySet", batchkeyset.NewPrimitiveKeySet[int64]), r, rep, sh, n, special["int64"])
+	c16Run(c16Prim[float32]("float32").with("NewPrimitiveKeySet", batchkeyset.NewPrimitiveKeySet[float32]), r, rep, sh, n, special["float32"])
+	c16Run(c16Prim[float64]("float64").with("NewPrimitiveKeySet", batchkeyset.NewPrimitiveKeySet[float64]), r, rep, sh, n, special["float64"])
+	c16Run(c16Prim[bool]("bool").with("NewPrimitiveKeySet", batchkeyset.NewPrimitiveKeySet[bool]), r, rep, sh, (n+1)/2, special["bool"])
+	c16Run(c16Prim[string]("string").with("NewPrimitiveKeySet", batchkeyset.NewPrimitiveKeySet[string]), r, rep, sh, n, special["string"])
+	c16Run(c16Generated[fam.Tlong]("Tlong", 0).with("NewSimpleKeySet", batchkeyset.NewSimpleKeySet[fam.Tlong]), r, rep, sh, n, special["Tlong"])
+	c16Run(c16Generated[fam.Tstr]("Tstr", 0).with("NewSimpleKeySet", batchkeyset.NewSimpleKeySet[fam.Tstr]), r, rep, sh, n, special["Tstr"])
+	c16Run(c16Generated[fam.Color]("Color", 0).with("NewSimpleKeySet", batchkeyset.NewSimpleKeySet[fam.Color]), r, rep, sh, (n+1)/2, special["Color"])
+	c16Run(c16Generated[*fam.Fx4]("Fx4", 0).with("NewSimpleKeySet", batchkeyset.NewSimpleKeySet[*fam.Fx4]), r, rep, sh, n, special["Fx4"])
+	c16Run(c16Generated[*fam.Inner]("Inner", 0).with("NewSimpleKeySet", batchkeyset.NewSimpleKeySet[*fam.Inner]), r, rep, sh, n, special["Inner"])
+	c16Run(c16Generated[*fam.CK]("CK", 1).with("NewComplexKeySet", batchkeyset.NewComplexKeySet[*fam.CK]), r, rep, sh, 2*n, special["CK"])
+	c16RunSet(c16Prim[[]byte]("bytes").with("NewBytesKeySet", batchkeyset.NewBytesKeySet), r, rep, sh, n, special["bytes"], nil, nil)
 	sh.Close()
 	rep.Shards = sh.Files
 	rep.Write(cfg.Out)
